@@ -220,7 +220,63 @@ func coqArgs() []string {
 		"-w", "-notation-overridden,-deprecated-hint-without-locality"}
 }
 
+// modelPass1 runs the model on chunks (a single Coq list literal of tens of thousands of trees overflows coqc's parser).
 func modelPass1(trees []string, pairs [][2]string, outDir string) ([]string, []bool, error) {
+	const chunk = 2500
+	type res struct {
+		r   []string
+		c   []bool
+		err error
+	}
+	nChunks := (len(trees) + chunk - 1) / chunk
+	if pc := (len(pairs) + chunk - 1) / chunk; pc > nChunks {
+		nChunks = pc
+	}
+	if nChunks == 0 {
+		nChunks = 1
+	}
+	out := make([]res, nChunks)
+	sem := make(chan struct{}, 8)
+	done := make(chan int, nChunks)
+	cut := func(n, k int) (int, int) {
+		lo, hi := k*chunk, (k+1)*chunk
+		if lo > n {
+			lo = n
+		}
+		if hi > n {
+			hi = n
+		}
+		return lo, hi
+	}
+	for k := 0; k < nChunks; k++ {
+		go func(k int) {
+			sem <- struct{}{}
+			tl, th := cut(len(trees), k)
+			pl, ph := cut(len(pairs), k)
+			r, c, err := modelPass1Chunk(trees[tl:th], pairs[pl:ph], outDir, k)
+			out[k] = res{r, c, err}
+			<-sem
+			done <- k
+		}(k)
+	}
+	for k := 0; k < nChunks; k++ {
+		<-done
+	}
+	var rs []string
+	var cs []bool
+	for k := 0; k < nChunks; k++ {
+		if out[k].err != nil {
+			return nil, nil, out[k].err
+		}
+		rs = append(rs, out[k].r...)
+	}
+	for k := 0; k < nChunks; k++ {
+		cs = append(cs, out[k].c...)
+	}
+	return rs, cs, nil
+}
+
+func modelPass1Chunk(trees []string, pairs [][2]string, outDir string, k int) ([]string, []bool, error) {
 	var b strings.Builder
 	b.WriteString("From GC Require Import Base Model_Regex Model_RegexSimplify Proofs_RegexSimplify.\n")
 	b.WriteString("Definition trees : list sx := [\n")
@@ -234,7 +290,7 @@ func modelPass1(trees []string, pairs [][2]string, outDir string) ([]string, []b
 		b.WriteString("(" + pr[0] + ", " + pr[1] + ")")
 	}
 	b.WriteString("\n].\nDefinition CERT := Eval vm_compute in map (fun p => if same_meaning (fst p) (snd p) then 1%N else 0%N) pairs.\nPrint CERT.\n")
-	path := filepath.Join(outDir, "round1_c11.v")
+	path := filepath.Join(outDir, fmt.Sprintf("round1_c11_%d.v", k))
 	common.WriteFile(path, b.String())
 	args := append([]string{"600", "coqc"}, coqArgs()...)
 	out, code, err := common.Run(700*time.Second, outDir, os.Environ(), "timeout", append(args, path)...)
@@ -744,7 +800,7 @@ func zlist(v []int) string {
 
 // Run produces the correspondence cases and runs the oracle.
 func Run(tier string, seed int64, outDir string) *common.Meta {
-	meta := &common.Meta{Property: "C11", Distribution: map[string]interface{}{}}
+	meta := &common.Meta{Property: "C11", Distribution: map[string]interface{}{}, CaseFiles: []string{}}
 	thorough := tier == "thorough"
 	r, err := newRunner()
 	if err != nil {
@@ -839,9 +895,12 @@ Definition case_ok (k : case) : bool :=
   end.
 Definition cases : list case := [
 `
-	const shards = 6
-	var bodies [shards][]string
-	var idx [shards][]string
+	shards := 6
+	if thorough {
+		shards = 20
+	}
+	bodies := make([][]string, shards)
+	idx := make([][]string, shards)
 	nRewrites, nTwoPass := 0, 0
 	for i, p := range pats {
 		t := "None"
@@ -927,14 +986,17 @@ Definition cases : list case := [
 	}
 	maxSem := 2400
 	if thorough {
-		maxSem = 40000
+		maxSem = 24000
 	}
 	if len(sems) > maxSem {
 		sems = sems[:maxSem]
 	}
-	const semShards = 6
-	var semBodies [semShards][]string
-	var semIdx [semShards][]string
+	semShards := 6
+	if thorough {
+		semShards = 20
+	}
+	semBodies := make([][]string, semShards)
+	semIdx := make([][]string, semShards)
 	semRuns, semUnsupported := 0, 0
 	for i, sp := range sems {
 		re := regexp.MustCompile(sp.p)
@@ -1256,7 +1318,7 @@ func generatePatterns(tier string, seed int64) ([]string, []string, map[string]i
 
 	scale := 1
 	if thorough {
-		scale = 25
+		scale = 8
 	}
 	g := &gen{r: common.NewRand(seed, "c11-grammar"), alpha: []string{"a", "b", "c", "x", " ", "a", "b", "❤", "-", "k", "s"}}
 	for n, tries := 0, 0; n < 1300*scale && tries < 40000*scale; tries++ {
